@@ -126,7 +126,7 @@ def mutate_steps(r, steps):
 def gen_b2_steps(r, tid, nclients):
     c = r.randrange(nclients)
     method = r.choice(["GET", "GET", "FETCH"])
-    rlen = r.choice([16, 17, 100, 1124, 1125, 1500, 2500])
+    rlen = r.choice([16, 17, 32, 48, 100, 1024, 1124, 1125, 1500, 2048, 2500])
     szx = r.choice([0, 2, 4, 5, 6])
     size = size_of(szx)
     base = {"tid": tid, "c": c, "method": method, "path": r.choice(["r0", "r1"]), "query": r.choice(["k=0", "k=1"]),
@@ -138,8 +138,9 @@ def gen_b2_steps(r, tid, nclients):
         first["b2"] = [0, 0, szx] if r.chance(0.7) else None
         steps.append(first)
     nums = list(range(1, min(nblocks, 6)))
-    if r.chance(0.3):
-        nums.append(nblocks + r.randrange(0, 3))  # beyond the end
+    if r.chance(0.4):
+        nums.append(nblocks + r.choice([0, 0, 1, 2]))  # beyond the end; nblocks itself starts exactly AT the end when
+        # the length is a multiple of the block size
     if r.chance(0.3):
         r.shuffle(nums)
     eff = szx if (steps and steps[0]["b2"] is not None) or not steps else 6
